@@ -48,7 +48,7 @@ class Scheduler:
     """Runs jobs (callables) in real threads; schedule letters release the named thread until it next
     enters the patched yield point (or finishes)."""
 
-    def __init__(self, jobs, timeout=10.0):
+    def __init__(self, jobs, timeout=60.0):
         self.jobs, self.timeout = jobs, timeout
         n = len(jobs)
         self.go = [threading.Semaphore(0) for _ in range(n)]
